@@ -540,3 +540,35 @@ func caseDesc(c *scopeCase) map[string]interface{} {
 }
 
 var _ = fmt.Sprint
+
+// siblingBlockPrograms: two blocks that start on the same source line, the first declaring a local the second must not
+// see, the second declaring a local and reading names (the cursor of C14, the query of C05/C06/C11 lands there). Sibling
+// scopes on one line need four or five statement nodes, beyond the node bound of the one-line program spaces.
+func siblingBlockPrograms() [][]string {
+	first := []string{"do local a = 1 end", "while b do local a = 1 end", "for i = 1, 2 do local a = 1 end", "if b then local a = 1 end",
+		"f(function(a) return a end)", "repeat local a = 1 until a"}
+	second := []string{"do local b = 2 print(a, b) end", "while b do local b = 2 print(a, b) end", "for b = 1, 2 do print(a, b) end",
+		"if b then local b = 2 print(a, b) end", "f(function(b) return a, b end)", "repeat local b = 2 until a == b"}
+	var out [][]string
+	for _, outer := range []string{"", "local a = 0"} {
+		for _, f := range first {
+			for _, s2 := range second {
+				var lines []string
+				if outer != "" {
+					lines = append(lines, outer)
+				}
+				lines = append(lines, f+" "+s2)
+				out = append(out, lines)
+			}
+		}
+		// then-block and else-block of one if statement, closures as fields of one table constructor
+		var lines []string
+		if outer != "" {
+			lines = append(lines, outer)
+		}
+		out = append(out, append(append([]string{}, lines...), "if b then local a = 1 else local b = 2 print(a, b) end"),
+			append(append([]string{}, lines...), "if b then return elseif a then local a = 1 else for b = 1, 2 do print(a, b) end end"),
+			append(append([]string{}, lines...), "local r = { function(a) return a end, function(b) return a, b end }"))
+	}
+	return out
+}
